@@ -1171,6 +1171,20 @@ fn oracle(c: &Case, t: &Trace) -> String {
     if t.leftover != 0 {
         return format!("FAIL: {} operation(s) still pending at final quiescence", t.leftover);
     }
+    // delivered: with unlimited ports, no version skew in the value and no connection loss, a value
+    // that was sent is received (also after being forwarded over further connections)
+    for (v, sr) in t.sends.iter().enumerate() {
+        let plain = c.chans.iter().all(|ch| ch.mode == 0 || !(ch.v1 == v || (ch.which >= 2 && ch.v2 == v)));
+        if c.fault == 0 && c.free0 >= 99 && c.free_f >= 99 && plain {
+            let sent = sr.0 == VRes::Ok || sr.1 == VRes::Ok;
+            if sent && sr.2 != VRes::Ok {
+                return format!("FAIL: value {} was sent but the far end's receive reports {:?}", v, sr.2);
+            }
+            if !sent && sr.0 == VRes::Pending {
+                return format!("FAIL: sending value {} hangs", v);
+            }
+        }
+    }
     for (i, o) in t.chans.iter().enumerate() {
         let label = i as u64 + 1;
         let pre = 100 + i as u64;
@@ -1189,6 +1203,38 @@ fn oracle(c: &Case, t: &Trace) -> String {
                 return format!("FAIL: receiver end of channel {} got item {} which was not sent into this channel (or twice / out of order): {:?}", i, it, o.items);
             }
             k += 1;
+        }
+        // wired: when nothing was in the way -- every travelling half of the channel went in a value
+        // that was sent and received successfully, no version skew, no connection loss -- the label (and
+        // before it the queued item) must arrive: every delivered half is connected to its counterpart
+        {
+            let ch = &c.chans[i];
+            let val_ok = |v: usize| t.sends.get(v).map(|s| (s.0 == VRes::Ok || s.1 == VRes::Ok) && s.2 == VRes::Ok).unwrap_or(false);
+            let clean = c.fault == 0 && ch.mode == 0 && val_ok(ch.v1) && (ch.which < 2 || val_ok(ch.v2));
+            if clean {
+                let mut want = Vec::new();
+                if ch.pre {
+                    want.push(pre);
+                }
+                want.push(label);
+                if o.items != want {
+                    return format!("FAIL: channel {}: all its halves were delivered but the receiver end got {:?} ({:?}) instead of {:?}", i, o.items, o.rx_term, want);
+                }
+            }
+        }
+        // a half that travelled in a value that was sent but did not make it to the far end (request
+        // rejected or lost, value lost): the end that stayed behind must not report success
+        {
+            let ch = &c.chans[i];
+            let sent = |v: usize| t.sends.get(v).map(|s| s.0 == VRes::Ok || s.1 == VRes::Ok).unwrap_or(false);
+            if ch.which < 2 && ch.mode != 2 && sent(ch.v1) {
+                if ch.which == 1 && o.rx_loc == 2 && o.tx_loc == 0 && tx_comb(o) == St::Ok {
+                    return format!("FAIL: channel {}: the receiver half was sent and got lost, but the sender end reports no error", i);
+                }
+                if ch.which == 0 && o.tx_loc == 2 && o.rx_loc == 0 && o.rx_term == St::Ok {
+                    return format!("FAIL: channel {}: the sender half was sent and got lost, but the receiver end reports no error", i);
+                }
+            }
         }
         // never a hang
         if o.tx_first == St::Pending || o.tx_late == St::Pending {
